@@ -310,6 +310,16 @@ def weave_region(repo, reg, mode, log, contract_only=False):
                         kept.setdefault(k, []).append(a)
         anns_before = kept
     sm = difflib.SequenceMatcher(None, creal, new, autojunk=False)
+    # A consistent renaming of a local / parameter (every occurrence of identifier `a` in the baseline became the fresh
+    # identifier `b`) is carried over to the annotation text, so that a rename alone does not detach the proof hints.
+    renames = _consistent_renames(creal, new, sm.get_opcodes())
+    if renames:
+        def _ren(text):
+            for a, b in renames.items():
+                text = re.sub(r"(?<![A-Za-z0-9_])%s(?![A-Za-z0-9_])" % re.escape(a), b, text)
+            return text
+        anns_before = {k: [_ren(a) for a in v] for k, v in anns_before.items()}
+        log.append({"region": reg.name, "renamed_in_annotations": renames})
     out = []
     nann = 0
     changed = False
@@ -365,6 +375,39 @@ def weave_region(repo, reg, mode, log, contract_only=False):
     text = _layout("".join(out))
     return text, {"name": reg.name, "mode": "verify", "loc": loc, "changed": changed, "nann": nann,
                   "real_tokens": new, "contract_only": contract_only}
+
+
+_IDENT = re.compile(r"^[A-Za-z_][A-Za-z0-9_]*$")
+_KEYWORDS = {"let", "mut", "fn", "if", "else", "match", "for", "in", "while", "loop", "return", "break", "continue", "as", "ref",
+             "self", "Self", "pub", "impl", "where", "true", "false", "Some", "None", "Ok", "Err", "usize", "isize", "u8", "u32",
+             "u64", "u128", "i32", "bool"}
+
+
+def _consistent_renames(old, new, opcodes):
+    cand = {}
+    bad = set()
+    for tag, i1, i2, j1, j2 in opcodes:
+        if tag == "replace" and i2 - i1 == j2 - j1:
+            for a, b in zip(old[i1:i2], new[j1:j2]):
+                if a == b:
+                    continue
+                if _IDENT.match(a) and _IDENT.match(b) and a not in _KEYWORDS and b not in _KEYWORDS:
+                    if cand.setdefault(a, b) != b:
+                        bad.add(a)
+                else:
+                    return {}      # the replaced stretch is not a pure renaming
+        elif tag == "equal":
+            pass
+    res = {}
+    oldset = set(old)
+    for a, b in cand.items():
+        if a in bad or b in oldset:
+            continue
+        # every occurrence of a must have been replaced: a must not survive in the new text
+        if a in set(new):
+            continue
+        res[a] = b
+    return res
 
 
 def _body_open(tl):
